@@ -129,6 +129,9 @@ type Sched struct {
 	Externals []External
 	// Monitor is called after every executed step once events are settled.
 	Monitor func(StepInfo) error
+	// OnQuiescent is called whenever the controllers have nothing left to do
+	// (before the next external action, and at the end).
+	OnQuiescent func() error
 	// OnRestart is called after a crash once the process is back (before anything runs).
 	OnRestart func()
 	// MaxIdleRetries bounds re-runs of an erroring reconcile while nothing else changed.
@@ -333,14 +336,20 @@ func sentinelGen(id controller.ID) (int, bool) {
 // collected IDs into the pending queues in a fixed order.
 func (s *Sched) settle() error {
 	s.gen++
-	s.w.emitSentinels(s.gen)
+	// Two sentinels per generation: every watcher is a single FIFO goroutine, so
+	// once the FIRST id produced by sentinel B has arrived, every id produced by
+	// the real events and by sentinel A has been delivered - however many ids
+	// the watcher emits per event (the harness does not depend on that number).
+	a, b := 2*s.gen, 2*s.gen+1
+	s.w.emitSentinels(a)
+	s.w.emitSentinels(b)
 	deadline := time.Now().Add(30 * time.Second)
 	for _, wr := range s.watchers {
 		for {
 			wr.mu.Lock()
-			ok := wr.acks[s.gen] >= wr.need
+			ok := wr.acks[b] >= 1
 			if ok {
-				delete(wr.acks, s.gen)
+				delete(wr.acks, a)
 			}
 			wr.mu.Unlock()
 			if ok {
@@ -359,6 +368,9 @@ func (s *Sched) settle() error {
 		wr.mu.Lock()
 		buf := wr.buf
 		wr.buf = nil
+		if len(wr.acks) > 64 {
+			wr.acks = map[int]int{}
+		}
 		wr.mu.Unlock()
 		for _, id := range buf {
 			s.enqueue(wr.c, id)
@@ -502,6 +514,11 @@ func (s *Sched) Run() error {
 			continue
 		}
 		cands := s.candidates()
+		if len(cands) == 0 && s.OnQuiescent != nil {
+			if err := s.OnQuiescent(); err != nil {
+				return err
+			}
+		}
 		if len(s.Externals) > 0 && (s.Drawn || len(cands) == 0) {
 			cands = append(cands, cand{kind: "ext"})
 		}
@@ -800,7 +817,11 @@ func (s *Sched) ReconcileAll() (int, error) {
 			sl := c.slotFor(s, c.partition(id))
 			it := &item{id: id}
 			s.Steps++
+			b0 := s.w.St.Writes() + s.w.Topo.WriteCount() + s.w.deviceCalls()
 			res, err, p, st := s.reconcile(sl, it)
+			if d := s.w.St.Writes() + s.w.Topo.WriteCount() + s.w.deviceCalls() - b0; d != 0 {
+				s.x.Logf("  extra pass: %s %s performed %d writes/device calls (requeue %v, err %v)", c.name, s.idStr(id), d, res.Requeue.Value, err)
+			}
 			if p != nil {
 				return 0, vstat.Violf("reconciler %s panicked on %v: %v\n%s", c.name, id.Value, p, st)
 			}
